@@ -256,9 +256,9 @@ Lemma core_touch : forall s, s_batch s = [] -> core (touch s) = core s.
 Proof. intros s H. unfold core, touch. cbn. rewrite H. reflexivity. Qed.
 
 Lemma p_put_ctrl_store : forall p a b, p_store (p_put_ctrl p a b) = p_store p.
-Proof. intros. unfold p_put_ctrl. destruct (p_kind p); [reflexivity| destruct (p_ctrl p); reflexivity | reflexivity]. Qed.
+Proof. intros. unfold p_put_ctrl. destruct (p_kind p); reflexivity. Qed.
 Lemma p_put_ctrl_kind : forall p a b, p_kind (p_put_ctrl p a b) = p_kind p.
-Proof. intros. unfold p_put_ctrl. destruct (p_kind p) eqn:E; [exact E| destruct (p_ctrl p); [exact E|reflexivity] | reflexivity]. Qed.
+Proof. intros. unfold p_put_ctrl. destruct (p_kind p) eqn:E; [exact E|reflexivity|reflexivity]. Qed.
 
 Definition after_gap (s : sess) : sess :=
   let s1 := touch s in
@@ -355,13 +355,46 @@ Definition out (s : sess) (l : list pitem) : list event := map EOut (map (wire s
 Lemma retrans_record_plan : forall s b last k raw,
   replaying s -> resendable decode (k, raw) = true ->
   exists s', retrans_record sc decode now b last k raw s =
-             (inl true, s', out s (gap_before (s_next_send s) b last k ++ [PMsg k raw]))
+             (inl true, s', out s (gap_before b last k ++ [PMsg k raw]))
              /\ core s' = core s.
 Proof.
   intros s b last k raw R D. unfold resendable in D. cbn [snd] in D.
   destruct (decode raw) as [m|] eqn:DE; [|discriminate]. apply andb_true_iff in D. destruct D as [D1 D2].
   assert (Rb : s_batch s = []) by apply R.
-  unfold retrans_record, gap_before, out. unfold bind at 1. unfold get at 1.
+  unfold retrans_record, gap_before, out.
+  destruct (negb (last =? 0)) eqn:L.
+  - destruct (last + 1 <? k) eqn:G.
+    + unfold bind. rewrite do_send_gap by exact R. unfold ret. rewrite DE.
+      assert (R' : replaying (after_gap s)) by (eapply replaying_core; [apply core_after_gap; exact Rb|exact R]).
+      rewrite do_send_resend by assumption.
+      exists (touch (after_gap s)). split.
+      * cbn [app map wire]. rewrite DE. rewrite (stamp_core s (after_gap s)) by (apply core_after_gap; exact Rb). reflexivity.
+      * rewrite core_touch by apply R'. apply core_after_gap; exact Rb.
+    + unfold bind, ret. rewrite DE. rewrite do_send_resend by assumption.
+      exists (touch s). split; [cbn [app map wire]; rewrite DE; reflexivity|apply core_touch; exact Rb].
+  - destruct (b <? k) eqn:G.
+    + unfold bind. rewrite do_send_gap by exact R. unfold ret. rewrite DE.
+      assert (R' : replaying (after_gap s)) by (eapply replaying_core; [apply core_after_gap; exact Rb|exact R]).
+      rewrite do_send_resend by assumption.
+      exists (touch (after_gap s)). split.
+      * cbn [app map wire]. rewrite DE. rewrite (stamp_core s (after_gap s)) by (apply core_after_gap; exact Rb).
+        reflexivity.
+      * rewrite core_touch by apply R'. apply core_after_gap; exact Rb.
+    + unfold bind, ret. rewrite DE. rewrite do_send_resend by assumption.
+      exists (touch s). split; [cbn [app map wire]; rewrite DE; reflexivity|apply core_touch; exact Rb].
+Qed.
+
+(* the callback as it was before /repo 930506b (F22): both gap fills carry next_send *)
+Lemma retrans_record_orig_plan : forall s b last k raw,
+  replaying s -> resendable decode (k, raw) = true ->
+  exists s', retrans_record_orig sc decode now b last k raw s =
+             (inl true, s', out s (gap_before_orig (s_next_send s) b last k ++ [PMsg k raw]))
+             /\ core s' = core s.
+Proof.
+  intros s b last k raw R D. unfold resendable in D. cbn [snd] in D.
+  destruct (decode raw) as [m|] eqn:DE; [|discriminate]. apply andb_true_iff in D. destruct D as [D1 D2].
+  assert (Rb : s_batch s = []) by apply R.
+  unfold retrans_record_orig, gap_before_orig, out. unfold bind at 1. unfold get at 1.
   destruct (negb (last =? 0)) eqn:L.
   - destruct (last + 1 <? k) eqn:G.
     + unfold bind. rewrite do_send_gap by exact R. unfold ret. rewrite DE.
@@ -405,8 +438,8 @@ Lemma retrans_loop_plan : forall fuel s last cur,
   core s = core s0 ->
   (length (after cur finish (p_store (s_per s0))) < fuel)%nat ->
   exists s', retrans_loop sc decode now fuel b finish last cur s =
-             (inl (snd (plan_loop (s_next_send s0) b last (after cur finish (p_store (s_per s0))))), s',
-              out s0 (fst (plan_loop (s_next_send s0) b last (after cur finish (p_store (s_per s0))))))
+             (inl (snd (plan_loop b last (after cur finish (p_store (s_per s0))))), s',
+              out s0 (fst (plan_loop b last (after cur finish (p_store (s_per s0))))))
              /\ core s' = core s0.
 Proof.
   induction fuel as [|f IH]; intros s last cur C F; [lia|].
@@ -425,9 +458,9 @@ Proof.
       assert (C1' : core s1 = core s0) by (rewrite C1; exact C).
       destruct (IH s1 k k C1' ltac:(lia)) as (s2 & E2 & C2). rewrite E2.
       exists s2. split; [|exact C2].
-      cbn [plan_loop]. destruct (plan_loop (s_next_send s0) b k (after k finish (p_store (s_per s0)))) as [items last'].
+      cbn [plan_loop]. destruct (plan_loop b k (after k finish (p_store (s_per s0)))) as [items last'].
       cbn [fst snd]. f_equal.
-      rewrite (out_core s0 s) by exact C. rewrite (core_send _ _ C).
+      rewrite (out_core s0 s) by exact C.
       rewrite <- out_app. rewrite <- app_assoc. reflexivity.
   - rewrite SN. cbn [plan_loop fst snd]. unfold ret. exists s. split; [reflexivity|exact C].
 Qed.
@@ -547,7 +580,7 @@ Proof.
         pose proof (after_length_le st (a - 1) finish) as L2. lia. }
       destruct (retrans_loop_plan s 0 b finish R WF DEC _ s1 0 (a - 1) C1 FU) as (s2 & E2 & C2).
       change (p_store (s_per s)) with st in E2. change (s_next_send s) with n in E2. rewrite SH in E2.
-      unfold bind at 1. rewrite E2. destruct (plan_loop n b 0 (after (b - 1) finish st)) as [items last] eqn:PL. cbn [fst snd].
+      unfold bind at 1. rewrite E2. destruct (plan_loop b 0 (after (b - 1) finish st)) as [items last] eqn:PL. cbn [fst snd].
       assert (R2 : replaying s2) by (eapply replaying_core; [exact C2|exact R]).
       rewrite retrans_final_plan by exact R2.
       destruct (plan_final n b last) as [g nseq] eqn:PF. cbn [fst snd].
